@@ -46,9 +46,3 @@ Proof.
   - split; [discriminate|reflexivity].
 Qed.
 Print Assumptions C05_indices.
-
-(* the evaluation the coin theorems are about is the translated gf_poly_eval of the current source *)
-Theorem C05_code_tie : forall c, length c = 16%nat -> wf c ->
-  CFuns.gf_poly_eval CFuns.polyseed_mul2_table (map Z.of_N c) = Z.of_N (poly_eval c).
-Proof. exact tie_eval. Qed.
-Print Assumptions C05_code_tie.
